@@ -187,20 +187,25 @@ class MultiTypeMap(dict):
             candidates = [c for c in candidates if c.handler not in processed]
             if not candidates:
                 return
-            rval = [candidates[0]]
-            c1 = candidates[0]
-            for c2 in candidates[1:]:
-                if c1.dominates(c2):
-                    # Candidate 1 dominates candidate 2
+            # The candidates that share the best sort key cannot dominate each
+            # other. Which of them comes first is arbitrary (it is the order
+            # of a set), so the group must not depend on it: it is made of all
+            # of them, plus every candidate that at least one of them does not
+            # dominate.
+            best = candidates[0].sort_key()
+            tied = [c for c in candidates if c.sort_key() == best]
+            rval = list(tied)
+            for c in tied[1:]:
+                processed.add(c.handler)
+            for c2 in candidates[len(tied) :]:
+                if all(c1.dominates(c2) for c1 in tied):
+                    # All the best candidates dominate candidate 2
                     continue
                 else:
                     processed.add(c2.handler)
-                    # Candidate 1 does not dominate candidate 2, so we add it
-                    # to the list.
                     rval.append(c2)
             yield rval
-            if len(rval) >= 1:
-                yield from _pull(candidates[1:])
+            yield from _pull(candidates[1:])
 
         return list(_pull(candidates))
 
